@@ -154,6 +154,28 @@ def rule_validate(ck: Check, repo: Repo) -> None:
             if isinstance(st, ast.Assign) and len(st.targets) == 1 and isinstance(st.targets[0], ast.Name) and \
                     isinstance(st.value, ast.Call) and ast.unparse(st.value.func) == "values.get":
                 tainted[st.targets[0].id] = st
+            elif isinstance(st, ast.NamedExpr) and isinstance(st.value, ast.Call) and ast.unparse(st.value.func) == "values.get":
+                tainted[st.target.id] = st
+        # presence of a key is decided by `is None` / `is not None`, never by truthiness: 0, false, "" and [] are
+        # wrong-typed VALUES that must reach the validator, not absent keys
+        for node in ast.walk(fn):
+            tests = []
+            if isinstance(node, (ast.If, ast.IfExp, ast.While)):
+                tests = [node.test]
+            elif isinstance(node, ast.BoolOp):
+                tests = list(node.values)
+            for t in tests:
+                inner = t.operand if isinstance(t, ast.UnaryOp) and isinstance(t.op, ast.Not) else t
+                name = None
+                if isinstance(inner, ast.Name) and inner.id in tainted:
+                    name = inner.id
+                elif isinstance(inner, ast.NamedExpr) and isinstance(inner.value, ast.Call) and ast.unparse(inner.value.func) == "values.get":
+                    name = inner.target.id
+                if name is not None:
+                    r.violation(q, f"TOML value `{name}` is tested by truthiness",
+                                f"`{ast.unparse(t)[:70]}`: a falsy wrong-typed value (0, false, \"\", []) is treated like a missing key and"
+                                f" is never validated - the broken REUSE.toml is accepted silently instead of being rejected with a"
+                                f" message naming the file", repo.loc(t))
         checked = set()
         for c in ast.walk(fn):
             if isinstance(c, ast.Call) and ast.unparse(c.func) == "isinstance" and c.args and isinstance(c.args[0], ast.Name):
